@@ -248,5 +248,37 @@ def pred_once(prog: Program) -> RuleResult:
     return r
 
 
+def pred_names(prog: Program) -> RuleResult:
+    """Parameter names are a function of the callable itself: a cache may be keyed by the callable (lru_cache, dict[function])
+    but not by something derived from it (name, qualname, module) - distinct callables can share those."""
+    r = RuleResult("PRED-NAMES", "parameter names are looked up per callable object", floor=1)
+    f = prog.func(PREDMOD + ".get_function_argument_names")
+    p = f.params[0]
+    bad = None
+    for n in walk_local(f.node):
+        key = None
+        if isinstance(n, ast.Subscript) and not isinstance(n.value, ast.Call):
+            key = n.slice
+        elif isinstance(n, ast.Call) and call_name(n) in ("get", "setdefault") and n.args:
+            key = n.args[0]
+        elif isinstance(n, ast.Compare) and any(isinstance(o, (ast.In, ast.NotIn)) for o in n.ops):
+            key = n.left
+        if key is None:
+            continue
+        kexpr = key
+        if isinstance(key, ast.Name):
+            for st in walk_local(f.node):
+                if isinstance(st, ast.Assign) and src(st.targets[0]) == key.id:
+                    kexpr = st.value
+        derived = [x for x in ast.walk(kexpr) if isinstance(x, ast.Attribute) and isinstance(x.value, ast.Name) and x.value.id == p]
+        if derived and not (isinstance(kexpr, ast.Name) and kexpr.id == p):
+            bad = (n, src(kexpr))
+    r.check(bad is None, "get_function_argument_names#cache-key", site(f, bad[0]) if bad else site(f), bad[1] if bad else "lru_cache / no cache",
+            "names are computed from, or cached under, the callable itself",
+            f"parameter names are cached under {bad[1] if bad else ''}, which distinct callables can share (functions made by one factory, lambdas, redefinitions): the second callable's "
+            f"positional arguments are bound to the first one's parameter names")
+    return r
+
+
 def run(prog: Program, tier: str) -> List[RuleResult]:
-    return [pred_align(prog), pred_dispatch(prog), pred_once(prog)]
+    return [pred_align(prog), pred_dispatch(prog), pred_once(prog), pred_names(prog)]
